@@ -4,17 +4,24 @@ NoNext == FALSE /\ UNCHANGED vars
 EmitScn == pc = "recv" => PrintT(<<"SCN", ToJson([scn |-> scn])>>)
 ValsQuick == {"i5", "i0", "im1", "s_abc", "s_5", "true", "null", "a_12", "o_x1", "a_ox1"}
 Validators == {"schema", "pyd_coerce", "pyd_nocoerce"}
-TypesOf(v) == IF v = "schema" THEN SchemaTypes ELSE PydTypes
+NewPyd == {"float", "dictint", "enum"}
+TypesOf(v) == IF v = "schema" THEN SchemaTypes ELSE PydTypes \ NewPyd
+\* the later additions to the annotation alphabet are paired with each other and with int (not with every other type)
+PairOk(v, t1, t2) == \/ (t1 \in TypesOf(v) /\ t2 \in TypesOf(v))
+                     \/ (v # "schema" /\ t1 \in NewPyd /\ t2 \in NewPyd \cup {"int"})
+                     \/ (v # "schema" /\ t1 = "int" /\ t2 \in NewPyd)
+AllTypes(v) == IF v = "schema" THEN SchemaTypes ELSE PydTypes
 S(v, ps, ex, pa, vals, se) == [validator |-> v, vsrc |-> "fresh", sreq |-> FALSE, params |-> ps, extra |-> ex, passing |-> pa, vals |-> vals, setextra |-> se]
 P(t, d) == [type |-> t, dflt |-> d]
 InitV(V) ==
     \* two parameters, every type pair, last one with / without default, positional prefixes and named subsets
-    \/ \E v \in Validators : \E t1 \in TypesOf(v), t2 \in TypesOf(v), d2 \in BOOLEAN, pa \in {"pos", "named"} :
+    \/ \E v \in Validators : \E t1 \in AllTypes(v), t2 \in AllTypes(v), d2 \in BOOLEAN, pa \in {"pos", "named"} :
           \E a \in V \cup {"omit"}, b \in V \cup {"omit"} :
+             /\ PairOk(v, t1, t2)
              /\ (pa = "pos" => (a = "omit" => b = "omit"))
              /\ InitWith(S(v, <<P(t1, FALSE), P(t2, d2)>>, "none", pa, <<a, b>>, FALSE))
     \* one parameter + a context parameter / a parameter removed by the exclusion predicate; the client may try to set it
-    \/ \E v \in Validators : \E t1 \in TypesOf(v), d1 \in BOOLEAN, ex \in {"none", "ctx", "dep"}, pa \in {"pos", "named"}, se \in BOOLEAN :
+    \/ \E v \in Validators : \E t1 \in AllTypes(v), d1 \in BOOLEAN, ex \in {"none", "ctx", "dep"}, pa \in {"pos", "named"}, se \in BOOLEAN :
           \E a \in V \cup {"omit"} :
              /\ (se => (pa = "named" /\ ex # "none"))
              /\ InitWith(S(v, <<P(t1, d1)>>, ex, pa, <<a>>, se))
@@ -28,6 +35,11 @@ InitShared(V) ==
 InitSreq(V) == \E t1 \in SchemaTypes, d1 \in BOOLEAN, d2 \in BOOLEAN, pa \in {"pos", "named"} : \E a \in V \cup {"omit"}, b \in {"i5", "s_abc", "omit"} :
                   /\ (pa = "pos" => (a = "omit" => b = "omit")) /\ (d1 => d2)
                   /\ InitWith([S("schema", <<P(t1, d1), P("int", d2)>>, "none", pa, <<a, b>>, FALSE) EXCEPT !.sreq = TRUE])
-InitQuick == InitV(ValsQuick) \/ InitShared(ValsQuick) \/ InitSreq(ValsQuick)
-InitThorough == InitV(Values) \/ InitShared(Values) \/ InitSreq(Values)
+\* three parameters (the last with / without default) over a reduced alphabet
+Init3(T, V) == \E v \in Validators : \E t1 \in T, t2 \in T, t3 \in T, d3 \in BOOLEAN, pa \in {"pos", "named"} :
+                 \E a \in V \cup {"omit"}, b \in V \cup {"omit"}, c \in V \cup {"omit"} :
+                    /\ (pa = "pos" => ((a = "omit" => b = "omit") /\ (b = "omit" => c = "omit")))
+                    /\ InitWith(S(v, <<P(t1, FALSE), P(t2, FALSE), P(t3, d3)>>, "none", pa, <<a, b, c>>, FALSE))
+InitQuick == InitV(ValsQuick) \/ InitShared(ValsQuick) \/ InitSreq(ValsQuick) \/ Init3({"int", "bool"}, {"i5", "true"})
+InitThorough == InitV(Values) \/ InitShared(Values) \/ InitSreq(Values) \/ Init3({"int", "bool", "intlist"}, {"i5", "true", "a_12", "s_abc"})
 =============================================================================
